@@ -11,6 +11,16 @@ import CffVerif.Sched.ReportInv
 import CffVerif.Sched.Progress
 import CffVerif.Sched.Measure
 import CffVerif.Sched.RetInv
+import CffVerif.Text.BuildTag
+import CffVerif.Text.Alias
+import CffVerif.Text.Stack
+import CffVerif.Text.GenName
+import CffVerif.Text.Order
+import CffVerif.Gen.BodyThms
+import CffVerif.Gen.Topo
+import CffVerif.Gen.Denote
+import CffVerif.Gen.Parallel
+import CffVerif.Text.Hoist
 
 namespace Sched
 
@@ -454,3 +464,185 @@ example :
   decide
 
 end Sched
+
+/-! ## Text level -/
+
+namespace Text
+open BExpr
+
+/-- **C16 inversion.** For every constraint expression (any nesting of `!`, `&&`, `||`, any tags) and
+    every tag assignment, the rewritten `//go:build` expression holds exactly when the original
+    holds with the `cff` tag flipped. -/
+theorem C16_invert (σ : String → Bool) (e : BExpr) : (rewriteLine e).eval σ = e.eval (flipCff σ) := by
+  unfold rewriteLine; rw [collapse_eval, invert_eval]
+
+/-- The rewritten expression never contains `!!`, so the printed line is a valid constraint. -/
+theorem C16_printable (e : BExpr) : (rewriteLine e).noDoubleNeg = true := collapse_noDoubleNeg _
+
+/-- **C16 several lines.** A file with several constraint lines (their conjunction) is selected
+    after rewriting exactly when the source file is selected with `cff` flipped. -/
+theorem C16_lines (σ : String → Bool) (es : List BExpr) :
+    (es.map rewriteLine).all (eval σ) = es.all (eval (flipCff σ)) := by
+  induction es with
+  | nil => rfl
+  | cons e es ih => simp [List.all_cons, C16_invert, ih]
+
+/-- Flipping twice is the identity: regenerating from a generated header restores the source's meaning. -/
+theorem C16_flip_involutive (σ : String → Bool) : flipCff (flipCff σ) = σ := by
+  funext t; unfold flipCff; split <;> simp
+
+/-- Non-vacuity / the defect fixed as F9: `!(!(!cff))` inverts to `!cff`'s negation without `!!`. -/
+example : rewriteLine (.not (.not (.not (.tag "cff")))) = .tag "cff" ∧
+          invert (.not (.not (.not (.tag "cff")))) = .not (.not (.tag "cff")) := by decide
+
+/-- **C16 output name.** For every `.go` base name: the output differs from the input, test-ness is
+    preserved, and distinct inputs have distinct outputs. -/
+theorem C16_name (a b : List Char) (ha : goSuf.isSuffixOf a = true) (hb : goSuf.isSuffixOf b = true) :
+    genName a ≠ a ∧ testSuf.isSuffixOf (genName a) = testSuf.isSuffixOf a ∧ (genName a = genName b → a = b) :=
+  ⟨genName_ne a ha, genName_test_iff a ha, genName_injective a b ha hb⟩
+
+/-- **C17 sorted emission.** Whatever order Go's map iteration yields, the emitted (sorted) list is the same. -/
+theorem C17_sorted_emission {α : Type} (le : α → α → Bool)
+    (htrans : ∀ a b c, le a b = true → le b c = true → le a c = true)
+    (htotal : ∀ a b, (le a b || le b a) = true) (hanti : ∀ a b, le a b = true → le b a = true → a = b)
+    (l₁ l₂ : List α) (h : l₁.Perm l₂) : l₁.mergeSort le = l₂.mergeSort le :=
+  sorted_emission le htrans htotal hanti l₁ l₂ h
+
+/-- **C17 prologue.** The hoisted argument expressions come out in source-position order for every
+    iteration order of the `exprs` map. -/
+theorem C17_prologue_order (l₁ l₂ : List (Nat × String)) (h : l₁.Perm l₂)
+    (hdistinct : ∀ a ∈ l₁, ∀ b ∈ l₁, a.1 = b.1 → a = b) :
+    (l₁.mergeSort (fun a b => decide (a.1 ≤ b.1))).map Prod.snd = (l₂.mergeSort (fun a b => decide (a.1 ≤ b.1))).map Prod.snd :=
+  prologue_order_independent l₁ l₂ h hdistinct
+
+/-- **C13 alias freshness.** A newly synthesised import name is never one already taken in the file,
+    it is recorded as taken, and two different new import paths never get the same name. -/
+theorem C13_alias_fresh (p1 a1 p2 a2 : String) (st : AliasSt) (h1 : st.addImports.lookup p1 = none)
+    (h2 : (printImportAlias p1 a1 st).2.addImports.lookup p2 = none) :
+    (printImportAlias p1 a1 st).1 ∉ st.aliases ∧
+    (printImportAlias p1 a1 st).1 ∈ (printImportAlias p1 a1 st).2.aliases ∧
+    (printImportAlias p2 a2 (printImportAlias p1 a1 st).2).1 ≠ (printImportAlias p1 a1 st).1 :=
+  ⟨(printImportAlias_fresh p1 a1 st h1).1, (printImportAlias_fresh p1 a1 st h1).2,
+   printImportAlias_distinct p1 a1 p2 a2 st h1 h2⟩
+
+end Text
+
+namespace Emitter
+
+/-- **C18 stack.** Each emitter combined with `EmitterStack`, however nested, receives exactly the
+    events it would receive alone: the receivers of a stack are the receivers of its arguments, in
+    order, with multiplicity. -/
+theorem C18_stack {Event : Type} (es : List Em) (evs : List Event) :
+    (mkStack es).deliver evs = es.flatMap (fun e => e.deliver evs) := deliver_mkStack es evs
+
+theorem C18_stack_empty {Event : Type} (evs : List Event) : (mkStack []).deliver evs = [] := by
+  simp [mkStack, Em.deliver, Em.receivers, Em.atoms, Atom.leafId]
+
+theorem C18_stack_single (e : Em) : mkStack [e] = e := rfl
+
+end Emitter
+
+/-! ## Generated code: one job body -/
+
+namespace Gen
+
+/-- **C04 containment (task body).** No panic escapes a generated task body, whatever the task
+    shape, the scenario and the store; without the recover block it would. -/
+theorem C04_no_escape (t : Task) (sc : Scenario) (s : Store) : (runTask .std t sc s).crashed = false ∧
+    (runPred t sc s).crashed = false := ⟨runTask_no_crash t sc s, (runPred_never_fails t sc s).2.1⟩
+
+/-- **C04 PanicError.** A panicking task function without FallbackWith makes its job fail with the
+    panic's own value (the entry names the task and the value's class). -/
+theorem C04_panic_error (t : Task) (sc : Scenario) (s : Store) (hg : gateOpen t s = true)
+    (ho : sc.fnOut t.k = .panic) (hf : t.fb = false) :
+    (runTask .std t sc s).ret = some s!"panic:{t.k}:{sc.vclass 't' t.k 0}" := runTask_panic_error t sc s hg ho hf
+
+/-- **C07 error identity.** The error a task function returns is what its job returns. -/
+theorem C07_task_error (t : Task) (sc : Scenario) (s : Store) (hg : gateOpen t s = true)
+    (ho : sc.fnOut t.k = .err) (hf : t.fb = false) : (runTask .std t sc s).ret = some s!"err:{t.k}" :=
+  runTask_error_passthrough t sc s hg ho hf
+
+/-- **C11 gate.** A task is invoked iff it has no predicate or its predicate returned true; with a
+    false predicate nothing is called or emitted, outputs stay zero and the job succeeds. -/
+theorem C11_gate (t : Task) (sc : Scenario) (s : Store) :
+    (runTask .std t sc s).invoked = gateOpen t s ∧
+    (t.pred = true → s.pPanic t.k = false → s.p t.k = false →
+      (runTask .std t sc s).ret = none ∧ (runTask .std t sc s).events = [] ∧ (runTask .std t sc s).store.val = s.val) :=
+  ⟨runTask_invoked_iff t sc s, fun hp hpp hq => (runTask_pred_false t sc s hp hpp hq).2⟩
+
+/-- **C11 fallback.** With FallbackWith, an error, a panic or a panicking predicate leaves the job
+    successful with the fallback values as outputs; on success the function's own results are used. -/
+theorem C11_fallback (t : Task) (sc : Scenario) (s : Store) :
+    (t.fb = true → ((t.pred = true ∧ s.pPanic t.k = true) ∨ (gateOpen t s = true ∧ sc.fnOut t.k ≠ .ok)) →
+      (runTask .std t sc s).ret = none ∧
+      (runTask .std t sc s).store.val = (s.setVals t.outs (fallbackVals t)).val) ∧
+    (gateOpen t s = true → sc.fnOut t.k = .ok →
+      (runTask .std t sc s).store.val =
+        (s.setVals t.outs ((List.range t.outs.length).map fun o => taskOut t.k o (t.ins.map s.val))).val) :=
+  ⟨fun hf hb => runTask_fallback t sc s hf hb, fun hg ho => (runTask_success t sc s hg ho).2.2⟩
+
+/-- **C18 task events.** One invocation emits exactly one outcome event matching what happened and
+    then exactly one TaskDone; a task that is not invoked emits no TaskDone. -/
+theorem C18_task_events (t : Task) (sc : Scenario) (s : Store) :
+    (gateOpen t s = true →
+      ∃ kind cls, (runTask .std t sc s).events = [(kind, cls), ("TaskDone", "-")] ∧ isOutcomeKind kind = true ∧
+        (kind = "TaskSuccess" ↔ sc.fnOut t.k = .ok) ∧
+        ((kind = "TaskError" ∨ kind = "TaskErrorRecovered") ↔ sc.fnOut t.k = .err) ∧
+        ((kind = "TaskPanic" ∨ kind = "TaskPanicRecovered") ↔ sc.fnOut t.k = .panic) ∧
+        ((kind = "TaskErrorRecovered" ∨ kind = "TaskPanicRecovered") → t.fb = true)) ∧
+    (gateOpen t s = false → ("TaskDone", "-") ∉ (runTask .std t sc s).events) := by
+  refine ⟨runTask_events_invoked t sc s, ?_⟩
+  intro hg hm
+  rcases runTask_events_not_invoked t sc s hg with h | ⟨c, h, _⟩ | ⟨c, h, _⟩ <;> rw [h] at hm <;> simp at hm
+
+
+/-! ## Generated code: structure of the job list -/
+
+/-- **C02 enqueue order.** For every acyclic flow, each generated job lists as `Dependencies` only
+    jobs enqueued before it, and every task and predicate is enqueued exactly once — so the
+    scheduler theorems (C01, C05, C07 …) apply to the generated job list. -/
+theorem C02_topo_sound (p : Prog) (hac : Acyclic p) :
+    (∀ (pos : Nat) (j : Job), (genJobs p)[pos]? = some j → ∀ d ∈ j.deps, d < pos) ∧
+    (genJobs p).length = (funcs p).length := genJobs_deps_before p hac
+
+/-- **C02 listing order.** The value denoted for every type does not depend on the order in which
+    the tasks are listed in the directive (given unique providers, which validation enforces). -/
+theorem C02_order_independent (p₁ p₂ : Prog) (sc : Scenario) (hparams : p₁.params = p₂.params)
+    (hperm : p₁.tasks.Perm p₂.tasks) (huniq : UniqueProviders p₁.tasks) (fuel : Nat) (τ : Ty) :
+    valueOf p₁ sc fuel τ = valueOf p₂ sc fuel τ := valueOf_perm p₁ p₂ sc hparams hperm huniq fuel τ
+
+/-- **C02 concurrency limit.** The denoted values do not depend on the concurrency limit. -/
+theorem C02_conc_independent (p : Prog) (sc : Scenario) (n : Option Nat) (fuel : Nat) (τ : Ty) :
+    valueOf { p with conc := n } sc fuel τ = valueOf p sc fuel τ := valueOf_conc_independent p sc n fuel τ
+
+/-- **C10 elements and End hooks.** A slice of length n (also nil/empty) yields exactly the element
+    jobs (i, s[i]), i < n, each with its own copy of index and value; its End job, if any, comes
+    right after them and lists exactly those n jobs as dependencies; all dependencies point backwards. -/
+theorem C10_slice_jobs (base : Nat) (c : Coll) :
+    (sliceJobs base c).filterMap (fun j => match j.body with | .sliceElem s i v => some (s, i, v) | _ => none)
+      = (List.range (collN c)).map (fun i => (c.id, i, sliceElem c.id i)) ∧
+    (c.hasEnd = true → (sliceJobs base c)[collN c]? =
+      some { body := .sliceEnd c.id, deps := (List.range (collN c)).map (base + ·) }) ∧
+    (∀ (i : Nat) (j : PJob), (sliceJobs base c)[i]? = some j → ∀ d ∈ j.deps, d < base + i) :=
+  ⟨sliceJobs_elements base c, fun h => (sliceJobs_end_deps base c h).1, sliceJobs_deps_before base c⟩
+
+theorem C10_map_end (base : Nat) (c : Coll) (h : c.hasEnd = true) :
+    (mapJobs base c)[collN c]? = some { body := .mapEnd c.id, deps := (List.range (collN c)).map (base + ·) } :=
+  mapJobs_end_deps base c h
+
+end Gen
+
+namespace Text
+
+/-- **C15 prologue.** The hoisted argument expressions are evaluated exactly once each and in
+    source order, whatever order the generator's map yields them in. -/
+theorem C15_prologue {E : Type} (exprs : List (Nat × E)) :
+    (prologue exprs).Perm exprs ∧ (prologue exprs).Pairwise (fun a b => a.1 ≤ b.1) :=
+  prologue_once_in_order exprs
+
+/-- **C20 source-map.** Whatever is written only in source-map mode is a comment, so both modes emit
+    the same code (the per-site fact "only comments are guarded by sourceMapped" is the differential's). -/
+theorem C20_sourcemap (segs : List Seg) : stripComments (render true segs) = stripComments (render false segs) :=
+  sourcemap_same_code segs
+
+end Text
